@@ -148,6 +148,8 @@ type OpResult struct {
 	Class string
 	Data  []byte
 	Keys  []string
+	// HandedOut: Create itself returned a file (whatever Write and Close said afterwards)
+	HandedOut bool
 }
 
 // actor resolves the Store to call for an op: the DB itself or an open/ended transaction.
@@ -245,6 +247,7 @@ func (a *actors) apply(ctx context.Context, o Op) OpResult {
 				r.Err = err
 				break
 			}
+			r.HandedOut = true
 			b := payload(o.ID, o.Size)
 			var werr error
 			var cb callerBuf
